@@ -1,4 +1,4 @@
-From AQ Require Import gen.C13Consts gen.C16Close model.Builder model.CloseFrame proofs.BuilderProofs proofs.CloseEmit.
+From AQ Require Import gen.C13Consts gen.C16Close model.Builder model.CloseFrame proofs.BuilderProofs proofs.CloseEmit proofs.CloseRound.
 From AQ Require Import lib.Base model.H3Parse model.H0 proofs.H3Total.
 
 (* For every event sequence (any stream ids, bytes, chunking, datagrams) and all oracle answers obeying the
@@ -67,6 +67,20 @@ Theorem close_frame_emittable : forall c pn, close_cfg_ok c ->
     len <= c_mds c.
 Proof. exact close_1rtt. Qed.
 Print Assumptions close_frame_emittable.
+
+(* ... and the closing round IN GENERAL (handshake not confirmed: a CONNECTION_CLOSE goes into every packet number space
+   whose send keys are valid): any sequence of INITIAL / HANDSHAKE packets followed by the 1-RTT packet, client or server,
+   any Retry token length (a packet type whose header leaves no room for the frame is skipped: QuicPacketBuilderStop is
+   caught), every code / frame type / reason: the round returns normally -- no QuicPacketBuilderStop, BufferWriteError,
+   AssertionError, ValueError, CryptoError escapes --, hands back at least one datagram (the 1-RTT packet always carries
+   its frame), and no datagram exceeds max_datagram_size. *)
+Theorem close_frame_emittable_any_round : forall c, close_cfg_ok c ->
+  forall pn pre code ftype reason,
+  Forall (fun t => t = PT_INITIAL \/ t = PT_HANDSHAKE) pre -> args_ok code ftype reason ->
+  exists d pk, close_round c pn (pre ++ [PT_ONE_RTT]) code ftype reason = (ODone, d, pk) /\
+               d <> [] /\ Forall (fun n => n <= c_mds c) d.
+Proof. exact close_round_general. Qed.
+Print Assumptions close_frame_emittable_any_round.
 
 (* every error code the HTTP/3 layer can close with (error_code of ProtocolError and its subclasses, read from the
    source by tools/gen/c16_close.py) is in range, and every raise site of the source uses one of them *)
